@@ -249,6 +249,10 @@ class NestablePool(mp.pool.Pool):
         super().__init__(*args, **kwargs)
 
 
+class ShardTimeout(BaseException):
+    pass
+
+
 def _run_shard_wrapper(args):
     module_name, shard = args
     mod = sys.modules.get(module_name) or __import__(
@@ -260,7 +264,9 @@ def _run_shard_wrapper(args):
     limit = int(os.environ.get("VERIF_SHARD_TIMEOUT", "1500"))
 
     def on_alarm(signum, frame):
-        raise TimeoutError("shard exceeded %d s" % limit)
+        # not an Exception: a harness that turns exceptions of the code
+        # under test into observations must not swallow the watchdog
+        raise ShardTimeout("shard exceeded %d s" % limit)
     old_handler = signal.signal(signal.SIGALRM, on_alarm)
     signal.alarm(limit)
     try:
